@@ -148,6 +148,22 @@ def zero_crossing_rules(chk):
                    pos_[id(srt[0])] < pos_[id(guard[0])], derived="sort %s the test" % ("precedes" if pos_[id(srt[0])] < pos_[id(guard[0])] else "FOLLOWS"),
                    loc=guard[0].loc, stmt=guard[0].stmt)
         expect(chk, "R-ZC-STRICT", cc + ".result", r.ret, dtype="int", sign="nonneg", kind=K_ARRAY, tags_has=["where-index"], loc=fi.loc())
+        # a literal result (`return np.array([0])`) is the answer only when NOTHING was found: the test that guards it reads the index set.  A
+        # literal result decided from the samples alone (constant record, all zeros ...) skips the zeros an all-zero record has
+        # (decided where adjacent zeros are requested: there every zero of an all-zero record is an index of the result)
+        for n in (ast.walk(fi.node) if kaz else ()):
+            if isinstance(n, ast.If) and len(n.body) >= 1 and isinstance(n.body[-1], ast.Return) and isinstance(n.body[-1].value, ast.Call) and \
+                    ast.unparse(n.body[-1].value.func).split(".")[-1] in ("array", "asarray", "zeros") and n.body[-1].value.args and \
+                    isinstance(n.body[-1].value.args[0], (ast.List, ast.Tuple, ast.Constant)):
+                inside = {id(x) for x in ast.walk(n.test)}
+                evs = [e for e in r.events("compare", ZC) if id(e.node) in inside]
+                reads_idx = any("where-index" in (e.left.tags | e.right.tags) for e in evs)
+                reads_vals = any("p:values" in (e.left.tags | e.right.tags) for e in evs)
+                if evs:
+                    chk.ob("R-ZC-STRICT", cc + "{literal result: %s}" % " ".join(ast.unparse(n.test).split())[:60],
+                           "a literal result is returned only when the index set is empty (the guard reads the indices found)", reads_idx,
+                           derived="the guard reads %s" % ("the index set" if reads_idx else ("the samples only" if reads_vals else "neither")),
+                           loc=fi.loc(n), stmt=norm_stmt(n.test), inconclusive=not reads_idx and not reads_vals)
         if not kaz:
             # no zero and no sign change at all: the result is [0] (index 0 is always reported), decided by `len(indices) == 0`
             for n in ast.walk(fi.node):
